@@ -1094,3 +1094,30 @@ def enumerate_paths(fn, decide=None, max_paths=256):
 
     run(list(fn.body), {}, {}, lambda e, a: out.append((dict(a), dict(e), None)))
     return out
+
+
+# ---------------------------------------------------------------------------------------------------------------------
+# Inert statements: what a maintainer adds for logging / documentation without changing behaviour.
+# ---------------------------------------------------------------------------------------------------------------------
+
+INERT_CALLS = ("print", "verbosePrint", "warnings.warn", "logging.", "logger.", "log.")
+
+
+def is_inert(stmt):
+    if isinstance(stmt, ast.Pass):
+        return True
+    if isinstance(stmt, ast.Expr):
+        v = stmt.value
+        if isinstance(v, ast.Constant):
+            return True
+        if isinstance(v, ast.Call):
+            if isinstance(v.func, ast.Lambda) and isinstance(v.func.body, ast.Constant):
+                return True
+            cn = dotted(v.func) or ""
+            return cn == "print" or cn == "verbosePrint" or cn.startswith(INERT_CALLS[2:])
+    return False
+
+
+def core(body):
+    """The statements of a block without the inert ones (log lines, docstrings, pass)."""
+    return [s for s in body if not is_inert(s)]
